@@ -296,17 +296,20 @@ def eval_config(case, rec):
         # ONE caller-owned context dict, passed to both configs (two environments): its per-namespace part holds strings
         # with placeholders inside containers
         yns = case.get('yns', case['y'])
-        context = {'uses': '{DIR}/ctx2.json', 'for_namespaces': {'n': {'yns': copy.deepcopy(yns)}}}
+        uses_form = '{DIR}/ctx2.json' if len(json.dumps(case['x'])) % 2 else ['{DIR}/ctx2.json']   # a string or a LIST
+        context = {'uses': uses_form, 'for_namespaces': {'n': {'yns': copy.deepcopy(yns)}}}
         context_before = copy.deepcopy(context)
         for which in ('gv', 'gv2'):
             spec = copy.deepcopy(case[which])
-            cfgdir = tmp / which / 'cfg'
-            cfgdir.mkdir(parents=True)
+            # the SAME files (one directory) serve both environments: only the defined values differ
+            cfgdir = tmp / 'cfg'
+            cfgdir.mkdir(parents=True, exist_ok=True)
             spec['vals']['DIR'] = str(cfgdir)  # DIR is always defined: it locates the used files
             gv, vals = make_gv(spec)
             x, y, ctxv, a0, kv = case['x'], case['y'], case['ctxv'], case['arg'], case['kwarg']
-            (cfgdir / 'used.json').write_text(json.dumps({'tasks': [f'{__name__}.C11Used'], 'y': y}))
-            (cfgdir / 'ctx2.json').write_text(json.dumps({'ctxv': ctxv}))
+            if which == 'gv':   # written ONCE: the second environment reads the very same, untouched files
+                (cfgdir / 'used.json').write_text(json.dumps({'tasks': [f'{__name__}.C11Used'], 'y': y}))
+                (cfgdir / 'ctx2.json').write_text(json.dumps({'ctxv': ctxv}))
             data = {
                 'tasks': [f'{__name__}.C11Root'],
                 'uses': ['{DIR}/used.json as n'],
